@@ -28,6 +28,9 @@ def strat_baseline():
     def case(draw):
         n = draw(st.integers(2, 6))
         long_line = draw(st.integers(0, 14)) == 0
+        dense = (not long_line) and draw(st.integers(0, 11)) == 0      # a point every few pixels (resampled / refined baselines)
+        if dense:
+            n = draw(st.integers(20, 60))
         ang = math.radians(draw(st.floats(-59, 59, allow_nan=False))) if not long_line else math.radians(draw(st.floats(-8, 8, allow_nan=False)))
         x = float(draw(st.integers(-40, 300)))
         y = float(draw(st.integers(-40, 300)))
@@ -41,7 +44,9 @@ def strat_baseline():
                 py += draw(st.floats(0, 0.99, allow_nan=False))
             pts.append((float(px), float(py)))
             seg = draw(st.integers(20, 90)) if not long_line else draw(st.integers(300, 700))
-            a = a + math.radians(draw(st.floats(-5, 5, allow_nan=False)))
+            if dense:
+                seg = 6 + (k * 7 + n) % 14
+            a = a + math.radians(draw(st.floats(-5, 5, allow_nan=False)) if not dense else (draw(st.floats(-5, 5, allow_nan=False)) if k % 8 == 0 else 0.3 * ((k % 3) - 1)))
             a = max(math.radians(-59), min(math.radians(59), a))
             x = float(round(x + seg * math.cos(a)))
             y = float(round(y + seg * math.sin(a)))
@@ -306,6 +311,35 @@ def body_pixels(ctx, case):
             ctx.nontrivial(repr(case))
     else:
         ctx.event("cut_shifted_baseline_negative")
+    # (c) the same line at the far end of a very large page (a side above 32767 px: maps, newspaper sheets at high
+    # resolution), wholly inside and with the page ending in the middle of the band. float32 sampling positions are
+    # only exact to 1/256 px out there, so single pixels may differ by an interpolation step: compared by mean and
+    # a wide per-pixel bound (a blank or displaced crop differs by ~100 grey levels on average)
+    if case["seed"] % 12 == 0 and min(W, Hh) <= 400:
+        wide = Hh <= 400
+        if wide:
+            page = np.zeros((Hh, 32800 + W, 3), dtype=np.uint8)
+            offp = np.array([32800.0, 0.0])
+            page[:, 32800:] = canvas
+            page_cut, small_cut = page[:, :32800 + cx], canvas[:, :cx]
+        else:
+            page = np.zeros((32800 + Hh, W, 3), dtype=np.uint8)
+            offp = np.array([0.0, 32800.0])
+            page[32800:, :] = canvas
+            page_cut, small_cut = page[:32800 + cy, :], canvas[:cy, :]
+        ctx.event("page_side_over_32767")
+        far = eng.crop(page, b_in + offp, list(case["heights"]))
+        ctx.check(far.shape == ref.shape, "crop_fell_back_to_blank", lambda: "far end of a %r page: shape %r expected %r; " % (page.shape, far.shape, ref.shape) + desc())
+        dfar = np.abs(far.astype(int) - ref.astype(int))
+        ctx.check(dfar.mean() <= 3.0 and dfar.max() <= 40, "crop_differs_on_very_large_page",
+                  lambda: "mean difference %.2f max %d; " % (dfar.mean(), dfar.max()) + desc())
+        want_cut = eng.crop(small_cut, b_in.copy(), list(case["heights"]))
+        got_cut = eng.crop(page_cut, b_in + offp, list(case["heights"]))
+        ctx.check(got_cut.shape == want_cut.shape, "crop_fell_back_to_blank",
+                  lambda: "line crossing the edge of a %r page: shape %r expected %r; " % (page_cut.shape, got_cut.shape, want_cut.shape) + desc())
+        dcut = np.abs(got_cut.astype(int) - want_cut.astype(int))
+        ctx.check(dcut.mean() <= 3.0 and dcut.max() <= 40, "crop_differs_on_very_large_page",
+                  lambda: "line crossing the page edge: mean difference %.2f max %d; " % (dcut.mean(), dcut.max()) + desc())
 
 
 def strat_degenerate():
